@@ -26,6 +26,7 @@ def refStep (r : Ref) : Op → Ref × List String
   | .ack h =>
     let r' : Ref := { r with delivered := max r.delivered (min h r.accepted.length) }
     (r', if r'.held.isEmpty then [] else r'.held ++ [rBytes])
+  | .ackFail h => ({ r with delivered := max r.delivered (min h r.accepted.length) }, [])
 
 def refRun (r : Ref) : List Op → Ref × List (List String)
   | [] => (r, [])
